@@ -15,7 +15,7 @@ from mc import tsmodel as tm
 
 PROPERTY = 'C08'
 ASSUMPTIONS = [
-    'operands: Series with Series / scalar, 2-column frames with frames / scalar; a Series mixed with a multi-column frame is not claimed',
+    'operands: Series with Series / scalar, 2-column frames with frames / scalar / a Series (suite frame_series: the Series is an operand of every column; no column policy involved)',
     'float inputs only; result dtype, Series name and column order are not checked; a fill method (ffill / the constant 0) is only exercised for div_ and add_ on pairs of Series '
     '(C03 covers filling itself): the operands are filled on the common index first, then the pointwise operation applies',
     "column policy 'oj' (missing column = neutral element) is claimed for add_/sub_/mul_/div_ only; frames with disjoint column sets under 'ij' are excluded",
@@ -204,6 +204,45 @@ def check_pair(case):
     if da != db and (da & db):
         out.nontrivial()
     out.cls('pair-%s' % ('same' if da == db else 'disjoint' if not (da & db) else 'overlap'))
+    return out
+
+
+# ------------------------------------------------------------------------------------------------ a 2-column frame with a Series
+
+def check_frame_series(case):
+    """op_(frame, series) and op_(series, frame): the Series is an operand of EVERY column (pointwise on the common index)"""
+    out = Out()
+    fa = frame_model(case['a'], 0, ['a', 'b'])
+    ms = operand(case['b'], 1)
+    desc = 'A=%s s=%s' % (fa, ms)
+    for how in ('ij', 'oj'):
+        days = tm.common_days([set(case['a'][0]), set(ms)], how)
+        sa = tm.align(ms, days)
+        for op in BIN:
+            for order in ('frame-first', 'series-first'):
+                out.sub()
+                sig = dict(op=op, how=how, order=order, mixed='frame+series')
+                A, S_ = tm.build_frame(fa), tm.build_series(ms)
+                snapA, snapS = A.copy(), S_.copy()
+                what = '%s_(%s, join=%s)' % (op, ('A, s' if order == 'frame-first' else 's, A') + ' with ' + desc, how)
+                try:
+                    res = opfun(op)(A, S_, join=how) if order == 'frame-first' else opfun(op)(S_, A, join=how)
+                    out.call()
+                except Exception as e:
+                    out.viol('raised', '%s raised %s: %s' % (what, type(e).__name__, e), exc=type(e).__name__, **sig)
+                    continue
+                exp = {}
+                for c in ('a', 'b'):
+                    xa = tm.align(fa[c], days)
+                    exp[c] = {d: (npop(op, xa[d], sa[d]) if order == 'frame-first' else npop(op, sa[d], xa[d])) for d in days}
+                p = _bool_frame_problem(res, exp, what)
+                if p:
+                    out.viol('wrong-value', p, **sig)
+                if not (A.equals(snapA) and S_.equals(snapS)):
+                    out.viol('operand-mutated', '%s changed an operand' % what, **sig)
+    if set(case['a'][0]) != set(ms) and (set(case['a'][0]) & set(ms)):
+        out.nontrivial()
+    out.cls('frame-series-%s' % ('same' if set(case['a'][0]) == set(ms) else 'diff'))
     return out
 
 
@@ -562,6 +601,9 @@ def suites(tier, seed):
         Suite('frames', lambda: gen_pairs(Vf), check_frames,
               rule='all ordered pairs of 2-column frames ({a,b} with {b,c} and with {a,b}) over every index subset x rotations; operators x {ij,oj} x column '
                    "policy (ij; oj with the neutral element for add/sub/mul/div)", bounds=dict(days=3 if q else 4)),
+        Suite('frame_series', lambda: gen_pairs(Vf), check_frame_series,
+              rule='every 2-column frame variant with every Series variant, in both operand orders x 11 operators x {ij,oj}: the Series is an operand of every column',
+              bounds=dict(days=3 if q else 4)),
         Suite('lists3', lambda: ({'v': list(c)} for c in itertools.product(Vl, repeat=3)), check_lists,
               rule='all ordered triples of Series over every subset of 3 days: add_/mul_/min_/max_ list forms (left-to-right reduction) x {ij,oj}; df_sum/df_mean/df_count '
                    '(union index, NaN skipped, NaN / count 0 where no operand has data)', bounds=dict(days=3, members=3)),
